@@ -6,6 +6,26 @@ mod oracle;
 mod tables;
 use std::io::{BufRead, Write};
 
+/// counting allocator: bytes requested and the largest single request since the last reset (C03: no entry point may
+/// request heap memory beyond a fixed multiple of its input)
+pub mod alloc_count {
+    use std::alloc::{GlobalAlloc, Layout, System};
+    use std::sync::atomic::{AtomicUsize, Ordering::Relaxed};
+    pub struct Counting;
+    pub static TOTAL: AtomicUsize = AtomicUsize::new(0);
+    pub static MAXREQ: AtomicUsize = AtomicUsize::new(0);
+    unsafe impl GlobalAlloc for Counting {
+        unsafe fn alloc(&self, l: Layout) -> *mut u8 { TOTAL.fetch_add(l.size(), Relaxed); MAXREQ.fetch_max(l.size(), Relaxed); System.alloc(l) }
+        unsafe fn dealloc(&self, p: *mut u8, l: Layout) { System.dealloc(p, l) }
+        unsafe fn alloc_zeroed(&self, l: Layout) -> *mut u8 { TOTAL.fetch_add(l.size(), Relaxed); MAXREQ.fetch_max(l.size(), Relaxed); System.alloc_zeroed(l) }
+        unsafe fn realloc(&self, p: *mut u8, l: Layout, n: usize) -> *mut u8 { TOTAL.fetch_add(n.saturating_sub(l.size()), Relaxed); MAXREQ.fetch_max(n, Relaxed); System.realloc(p, l, n) }
+    }
+    pub fn reset() { TOTAL.store(0, Relaxed); MAXREQ.store(0, Relaxed); }
+    pub fn get() -> (usize, usize) { (MAXREQ.load(Relaxed), TOTAL.load(Relaxed)) }
+}
+#[global_allocator]
+static ALLOC: alloc_count::Counting = alloc_count::Counting;
+
 fn main() {
     std::panic::set_hook(Box::new(|_| {}));
     let args: Vec<String> = std::env::args().collect();
